@@ -24,6 +24,18 @@ impl Universe {
             1 => vec![(0, 0), (1, 1), (2, 0xFFFF), (0x10000, 0x10000), (0x10001, MAX_CHAR - 2), (MAX_CHAR - 1, MAX_CHAR)],
             // digits and the characters around them
             2 => vec![(0, 0x2F), (0x30, 0x30), (0x31, 0x38), (0x39, 0x39), (0x3A, 0x3A), (0x3B, MAX_CHAR)],
+            // twelve adjacent single characters (states with many explicit intervals), the rest of the alphabet around them
+            3 => {
+                let mut v = vec![(0, A - 1)];
+                for i in 0..12 {
+                    v.push((A + i, A + i));
+                }
+                v.push((A + 12, MAX_CHAR - 1));
+                v.push((MAX_CHAR, MAX_CHAR));
+                v
+            }
+            // two characters that differ by 256 (and their neighbours): truncated table indices
+            4 => vec![(0, 0x41), (0x42, 0x42), (0x43, 0x141), (0x142, 0x142), (0x143, MAX_CHAR)],
             _ => panic!("unknown universe"),
         };
         let mut reps = vec![];
